@@ -52,7 +52,20 @@ def make_params(seed, tier):
 def gen_ops(rng):
     ops = []
     style = rng.choice(['numbered', 'numbered', 'numbered', 'mixed'])
-    for _ in range(rng.randint(3, 12)):
+    n_ops = rng.randint(3, 12)
+    r2 = random.Random(repr(rng.getstate()[1][:4]))    # (separate stream)
+    if r2.random() < 0.15:
+        # run numbers with two digits: 9-12 plain installs first, and the
+        # latest run cleaned (runN gone: the next number is worked out from
+        # the directory names)
+        for _ in range(r2.randint(9, 12)):
+            ops.append(['install', None, r2.randint(0, 99)])
+        ops.append(['clean', 'latest', r2.randint(0, 99)])
+        if r2.random() < 0.5:
+            ops.append(['clean', 'random', r2.randint(0, 99)])
+        ops.append(['install', None, r2.randint(0, 99)])
+        n_ops = r2.randint(1, 5)
+    for _ in range(n_ops):
         r = rng.random()
         if r < 0.5:
             kind = 'install'
